@@ -23,11 +23,14 @@ class Undecided(Exception):
 
 
 class PyRaise(Exception):
-    """A Python exception raised by the evaluated code."""
-    def __init__(self, name, msg=""):
+    """A Python exception raised by the evaluated code.  `cls` is the exception's class when known (a Python class for library
+    exceptions, a prog.Cls for the package's own), `obj` the exception object itself."""
+    def __init__(self, name, msg="", cls=None, obj=None):
         Exception.__init__(self, "%s: %s" % (name, msg))
         self.name = name
         self.msg = msg
+        self.cls = cls
+        self.obj = obj
 
 
 class _Break(Exception):
@@ -275,16 +278,20 @@ HIER = {
 
 
 class FuncRef:
-    def __init__(self, ev, func):
+    def __init__(self, ev, func, closure=None):
         self.ev = ev
         self.func = func
+        self.closure = closure      # the defining function's variables, for a nested def
 
     def __call__(self, *args, **kwargs):
-        return self.ev.call_func(self.func, list(args), kwargs)
+        return self.ev.call_func(self.func, list(args), kwargs, closure=self.closure)
 
 
 class Obj:
-    """An instance of a package class: its attribute dictionary; methods and class attributes come from the class's AST."""
+    """An instance of a package class: its attribute dictionary; methods and class attributes come from the class's AST.
+    The container protocol is forwarded to the class's own dunder methods (evaluated by the interpreter that made it)."""
+    ev = None
+
     def __init__(self, cls, attrs=None, label=""):
         self.cls = cls
         self.attrs = dict(attrs or {})
@@ -292,6 +299,40 @@ class Obj:
 
     def __repr__(self):
         return "<%s %s>" % (self.cls.name, self.label)
+
+    def _dunder(self, name, *args):
+        if self.ev is None:
+            raise Undecided("object protocol without an interpreter")
+        m = self.ev.find_method(self.cls, name)
+        if m is None:
+            raise PyRaise("TypeError", "%s does not support %s" % (self.cls.name, name))
+        return self.ev.call_func(m, [self] + list(args), {})
+
+    def __getitem__(self, k):
+        return self._dunder("__getitem__", k)
+
+    def __setitem__(self, k, v):
+        return self._dunder("__setitem__", k, v)
+
+    def __delitem__(self, k):
+        return self._dunder("__delitem__", k)
+
+    def __contains__(self, k):
+        if self.ev is not None and self.ev.find_method(self.cls, "__contains__") is None:
+            return any(x == k for x in self.__iter__())
+        return bool(self._dunder("__contains__", k))
+
+    def __iter__(self):
+        return iter(self._dunder("__iter__"))
+
+    def __len__(self):
+        return self._dunder("__len__")
+
+    def __hash__(self):
+        return id(self)
+
+    def __eq__(self, other):
+        return other is self
 
 
 class ClsRef:
@@ -301,6 +342,7 @@ class ClsRef:
 
     def __call__(self, *args, **kwargs):
         o = Obj(self.cls)
+        o.ev = self.ev
         init = self.ev.find_method(self.cls, "__init__")
         if init is None:
             if args or kwargs:
@@ -335,6 +377,8 @@ class Ev:
         self.fuel = fuel
         self.depth = 0
         self.defaults = {}
+        self.modvals = {}
+        self.clsvals = {}
         self.real_errors = real_errors      # True: ValidationError(...) instantiates the package's own class
 
     # ------------------------------------------------------------------ objects
@@ -360,6 +404,19 @@ class Ev:
                 return c.methods[name]
         return None
 
+    def class_attr(self, c, name, recv=None):
+        """class-level state is one object per class (FormatChecker.checkers), evaluated once"""
+        e = c.attrs[name]
+        if isinstance(e, ast.Call) and isinstance(e.func, ast.Name) and e.func.id in ("classmethod", "staticmethod") and len(e.args) == 1 \
+                and isinstance(e.args[0], ast.Name) and e.args[0].id in c.methods:
+            m = c.methods[e.args[0].id]     # cls_checks = classmethod(checks)
+            return BoundMethod(self, m, ClsRef(self, recv.cls if isinstance(recv, Obj) else (recv.cls if isinstance(recv, ClsRef) else c))) \
+                if e.func.id == "classmethod" else FuncRef(self, m)
+        ck = (c.qual, name)
+        if ck not in self.clsvals:
+            self.clsvals[ck] = self.expr(c.attrs[name], {}, _ModScope(c.mod))
+        return self.clsvals[ck]
+
     def obj_getattr(self, o, name, after=None):
         if after is None and name in o.attrs:
             return o.attrs[name]
@@ -378,8 +435,12 @@ class Ev:
                     return FuncRef(self, m)
                 return BoundMethod(self, m, o)
             if name in c.attrs:
-                scope = _ModScope(c.mod)
-                return self.expr(c.attrs[name], {}, scope)
+                return self.class_attr(c, name, o)
+            if name in c.aliases:
+                kind, target = c.aliases[name]
+                m = self.find_method(c, target)
+                if m is not None:
+                    return BoundMethod(self, m, ClsRef(self, o.cls) if kind == "classmethod" else o)
         if after is not None:
             # the rest of the chain is outside the package (object, Exception): their __init__ etc. do nothing observable here
             return lambda *a, **k: None
@@ -388,7 +449,7 @@ class Ev:
         raise PyRaise("AttributeError", "%s has no attribute %s" % (o.cls.name, name))
 
     # ------------------------------------------------------------------ functions
-    def call_func(self, func, args, kwargs):
+    def call_func(self, func, args, kwargs, closure=None):
         self.depth += 1
         if self.depth > 40:
             raise Undecided("recursion too deep")
@@ -396,8 +457,10 @@ class Ev:
             node = func.node
             if isinstance(node, ast.Lambda):
                 env = self.bind(func, node.args, args, kwargs)
+                env["__closure__"] = closure
                 return self.expr(node.body, env, func)
             env = self.bind(func, node.args, args, kwargs)
+            env["__closure__"] = closure
             yields = []
             env["__yields__"] = yields
             ret = None
@@ -520,21 +583,42 @@ class Ev:
             pass
         elif isinstance(st, ast.Raise):
             if st.exc is None:
-                raise Undecided("bare raise")
+                cur = env.get("__handling__")
+                if cur is None:
+                    raise Undecided("bare raise outside a handler")
+                raise cur
             e = st.exc
-            name = norm(e.func) if isinstance(e, ast.Call) else norm(e)
-            raise PyRaise(name.split(".")[-1], "raised by the evaluated code")
+            name = (norm(e.func) if isinstance(e, ast.Call) else norm(e)).split(".")[-1]
+            try:
+                val = self.expr(e, env, func)
+            except Undecided:
+                raise PyRaise(name, "raised by the evaluated code")
+            if isinstance(val, PyRaise):
+                raise val
+            if isinstance(val, Obj):
+                raise PyRaise(val.cls.name, "raised by the evaluated code", cls=val.cls, obj=val)
+            if isinstance(val, ClsRef):
+                raise PyRaise(val.cls.name, "raised by the evaluated code", cls=val.cls, obj=val())
+            if isinstance(val, BaseException):
+                raise PyRaise(type(val).__name__, str(val)[:80], cls=type(val), obj=val)
+            if isinstance(val, type) and issubclass(val, BaseException):
+                raise PyRaise(val.__name__, "", cls=val, obj=val())
+            raise PyRaise(name, "raised by the evaluated code")
         elif isinstance(st, ast.Try):
             try:
                 try:
                     self.block(st.body, env, func)
                 except PyRaise as pr:
                     for h in st.handlers:
-                        names = [] if h.type is None else [norm(x).split(".")[-1] for x in (h.type.elts if isinstance(h.type, ast.Tuple) else [h.type])]
-                        if h.type is None or pr.name in names or any(b in names for b in HIER.get(pr.name, ("Exception",))):
+                        if self.handler_matches(h, pr, env, func):
                             if h.name:
-                                env[h.name] = pr
-                            self.block(h.body, env, func)
+                                env[h.name] = pr.obj if pr.obj is not None else pr
+                            saved = env.get("__handling__")
+                            env["__handling__"] = pr
+                            try:
+                                self.block(h.body, env, func)
+                            finally:
+                                env["__handling__"] = saved
                             break
                     else:
                         raise
@@ -546,7 +630,7 @@ class Ev:
             nested = func.nested.get(st.name) if func is not None else None
             if nested is None:
                 raise Undecided("nested def %s" % st.name)
-            env[st.name] = FuncRef(self, nested)
+            env[st.name] = FuncRef(self, nested, closure=env)
         elif isinstance(st, ast.Assert):
             if not self.truth(self.expr(st.test, env, func)):
                 raise PyRaise("AssertionError")
@@ -562,6 +646,40 @@ class Ev:
             raise Undecided("with statement")
         else:
             raise Undecided("statement %s" % type(st).__name__)
+
+    def handler_matches(self, h, pr, env, func):
+        """Does `except <h.type>` catch pr?  The handler expression is evaluated (it may be a variable holding a tuple of
+        classes); when that is not possible the names written in the source are compared."""
+        if h.type is None:
+            return True
+        names = [norm(x).split(".")[-1] for x in (h.type.elts if isinstance(h.type, ast.Tuple) else [h.type])]
+        try:
+            val = self.expr(h.type, env, func)
+        except (Undecided, PyRaise):
+            val = None
+        if val is not None:
+            want = val if isinstance(val, tuple) else (val,)
+            ok_all = True
+            for w in want:
+                if isinstance(w, ClsRef):
+                    if isinstance(pr.cls, Cls):
+                        if w.cls in self.mro(pr.cls):
+                            return True
+                    elif pr.cls is None and pr.name == w.cls.name:
+                        return True
+                elif isinstance(w, type) and issubclass(w, BaseException):
+                    if isinstance(pr.cls, type):
+                        if issubclass(pr.cls, w):
+                            return True
+                    elif pr.cls is None and (pr.name == w.__name__ or w.__name__ in HIER.get(pr.name, ("Exception",))):
+                        return True
+                    elif isinstance(pr.cls, Cls) and w in (Exception, BaseException):
+                        return True
+                else:
+                    ok_all = False
+            if ok_all:
+                return False
+        return pr.name in names or any(b in names for b in HIER.get(pr.name, ("Exception",)))
 
     @staticmethod
     def _load(t):
@@ -608,11 +726,16 @@ class Ev:
         except RecursionError:
             raise Undecided("recursion")
         except Exception as e:      # a Python exception of the evaluated operation
-            raise PyRaise(type(e).__name__, str(e)[:80])
+            raise PyRaise(type(e).__name__, str(e)[:80], cls=type(e), obj=e)
 
     def lookup(self, name, env, func):
         if name in env:
             return env[name]
+        c = env.get("__closure__")
+        while c is not None:
+            if name in c:
+                return c[name]
+            c = c.get("__closure__")
         mod = func.mod if func is not None else None
         r = self.prog.resolve_name(mod, name, func) if mod is not None else None
         if r is None:
@@ -638,8 +761,11 @@ class Ev:
                 obj = getattr(obj, p)
             return obj
         if isinstance(r, tuple) and r[0] == "expr":
-            modfunc = _ModScope(r[1])
-            return self.expr(r[2], {}, modfunc)
+            # a module-level binding is evaluated once (identity matters: `x is _unset`)
+            ck = id(r[2])
+            if ck not in self.modvals:
+                self.modvals[ck] = self.expr(r[2], {}, _ModScope(r[1]))
+            return self.modvals[ck]
         if isinstance(r, tuple) and r[0] == "module":
             return _ModRef(self, r[1])
         raise Undecided("cannot resolve %s" % label)
@@ -667,7 +793,12 @@ class Ev:
                     return FuncRef(self, m)
                 for c in self.mro(o.cls):
                     if e.attr in c.attrs:
-                        return self.expr(c.attrs[e.attr], {}, _ModScope(c.mod))
+                        return self.class_attr(c, e.attr, o)
+                    if e.attr in c.aliases:
+                        kind, target = c.aliases[e.attr]
+                        m2 = self.find_method(c, target)
+                        if m2 is not None:
+                            return BoundMethod(self, m2, o) if kind == "classmethod" else FuncRef(self, m2)
                 if e.attr == "__name__":
                     return o.cls.name
                 raise PyRaise("AttributeError", "class %s has no attribute %s" % (o.cls.name, e.attr))
@@ -697,6 +828,8 @@ class Ev:
                 return fn(*args, **kwargs)
             if fn in (bool,) and args and isinstance(args[0], Tok):
                 raise Undecided("truthiness of an opaque value")
+            if fn is super and len(args) == 2 and isinstance(args[0], ClsRef) and isinstance(args[1], Obj):
+                return _Super(args[1], args[0].cls)
             if fn is super:
                 if func is None or getattr(func, "cls", None) is None or not func.params or func.params[0] not in env:
                     raise Undecided("super() outside a method")
